@@ -14,33 +14,35 @@ import (
 
 // Opt selects the variant of a scenario.
 type Opt struct {
-	Faults      bool // C17: every stub call may fail
-	CheckInv    bool // C15: assert Inv on every write
-	RealRoles   bool // C03/C07/C15: real role handler over symbolic role cells (else a symbolic allow/deny stub)
-	Side        int  // transfers: 0 = same call both sides possible (sender side), 2 = destination side
-	Reprice     bool // C16: arbitrary prior prices, then SetNewGasConfig(g) before the call
-	NoFrozen    bool
-	FixedCaller bool // the caller has the identity the function expects (skip authority variations)
-	Small       bool // smallest argument shapes only (for properties whose subject is not the arguments)
-	Medium      bool // thorough tier: keep the quick tier's argument length sets (the state space is what is widened)
-	Thin        bool // smallest pre-state space (world.Config.Thin)
-	GasEnough   bool // gas is not the subject: GasProvided >= 2^48
-	NoRAE       bool // ReturnCallAfterError pinned to false
-	Direct      bool // CallType pinned to DirectCall
-	NoCall      bool // no attached contract call
-	NoPause     bool // no pause flags generated
-	PauseBinary bool // generated pause flags are absent or "paused" (no "present, not paused" variant)
-	Split1      bool // single-byte nonce split in generated metadata (quick tier)
-	NoURIs      bool // generated metadata carries no URIs
-	FullAmounts bool // numeric amounts keep their adversarial length set even in a Small scenario
-	VaryHash    bool // generated and carried metadata hashes have length 0 or 1 (else 1)
-	Call2       bool // attached calls may carry two call arguments
-	SysDest     bool // allow the system account address as transfer destination (finding F10's class)
-	Presence    int  // account presence: 0 free, 1 (S,D), 2 (S,nil), 3 (nil,D)
-	MultiK      int  // multi-transfer: number of tokens (0: 1..2)
-	CrossOnly   bool // NFT/multi sender side: the destination is pinned to another shard
-	SelfMeta    bool // the executing shard is the metachain (accounts handed to the call are metachain accounts)
-	Wild        bool // C11: arbitrary argument counts and adversarial lengths per argument role
+	Faults         bool // C17: every stub call may fail
+	CheckInv       bool // C15: assert Inv on every write
+	RealRoles      bool // C03/C07/C15: real role handler over symbolic role cells (else a symbolic allow/deny stub)
+	Side           int  // transfers: 0 = same call both sides possible (sender side), 2 = destination side
+	Reprice        bool // C16: arbitrary prior prices, then SetNewGasConfig(g) before the call
+	NoFrozen       bool
+	FixedCaller    bool // the caller has the identity the function expects (skip authority variations)
+	Small          bool // smallest argument shapes only (for properties whose subject is not the arguments)
+	Medium         bool // thorough tier: keep the quick tier's argument length sets (the state space is what is widened)
+	Thin           bool // smallest pre-state space (world.Config.Thin)
+	GasEnough      bool // gas is not the subject: GasProvided >= 2^48
+	NoRAE          bool // ReturnCallAfterError pinned to false
+	Direct         bool // CallType pinned to DirectCall
+	NoCall         bool // no attached contract call
+	NoPause        bool // no pause flags generated
+	PauseBinary    bool // generated pause flags are absent or "paused" (no "present, not paused" variant)
+	Split1         bool // single-byte nonce split in generated metadata (quick tier)
+	NoURIs         bool // generated metadata carries no URIs
+	FullAmounts    bool // numeric amounts keep their adversarial length set even in a Small scenario
+	VaryHash       bool // generated and carried metadata hashes have length 0 or 1 (else 1)
+	Call2          bool // attached calls may carry two call arguments
+	SysDest        bool // allow the system account address as transfer destination (finding F10's class)
+	Presence       int  // account presence: 0 free, 1 (S,D), 2 (S,nil), 3 (nil,D)
+	MultiK         int  // multi-transfer: number of tokens (0: 1..2)
+	CrossOnly      bool // NFT/multi sender side: the destination is pinned to another shard
+	SameOnly       bool // NFT/multi sender side: the destination is pinned to the executing shard
+	SelfMeta       bool // the executing shard is the metachain (accounts handed to the call are metachain accounts)
+	DefaultPayable bool // C09: keep the payability handler the constructor installs (no SetPayableHandler)
+	Wild           bool // C11: arbitrary argument counts and adversarial lengths per argument role
 }
 
 // Scn is one built-in call from an arbitrary well-formed world.
@@ -592,6 +594,11 @@ func (s *Scn) sndDstPattern() {
 		s.Snd = s.W.NewAccount("snd", addr32("snd.addr")).WithFields()
 	case 2:
 		s.Dst = s.W.NewAccount("dst", addr32("dst.addr")).WithFields()
+	case 3:
+		// a call an account addresses to itself: the node hands the same account object in as
+		// sender and as destination
+		s.Snd = s.W.NewAccount("snd", addr32("snd.addr")).WithFields()
+		s.Dst = s.Snd
 	}
 }
 
@@ -724,7 +731,9 @@ func scnTransfer(o Opt) *Scn {
 	s.In = s.W.Input(caller, rcv, args)
 	g := s.prices()
 	f, _ := builtInFunctions.NewESDTTransferFunc(g.BuiltInCost.ESDTTransfer, s.W.Codec, s.W.Pause, s.W.Shards)
-	_ = f.SetPayableHandler(s.W.Payable)
+	if !s.O.DefaultPayable {
+		_ = f.SetPayableHandler(s.W.Payable)
+	}
 	s.Fn = f
 	s.finishPricing()
 	s.Cost, s.Priced = s.Gas.BuiltInCost.ESDTTransfer, true
@@ -751,7 +760,9 @@ func scnNFTTransfer(o Opt) *Scn {
 	s.Tok, s.NonceB, s.Amt = tokenID("tok"), nonceArg("nonce"), amount("amt")
 	g := s.prices()
 	f, _ := builtInFunctions.NewESDTNFTTransferFunc(g.BuiltInCost.ESDTNFTTransfer, s.W.Codec, s.W.Pause, s.W.Accounts, s.W.Shards, g.BaseOperationCost)
-	_ = f.SetPayableHandler(s.W.Payable)
+	if !s.O.DefaultPayable {
+		_ = f.SetPayableHandler(s.W.Payable)
+	}
 	s.Fn = f
 	s.finishPricing()
 	s.Cost, s.Priced = s.Gas.BuiltInCost.ESDTNFTTransfer, true
@@ -777,6 +788,9 @@ func scnNFTTransfer(o Opt) *Scn {
 	if o.CrossOnly {
 		s.W.Shards.Set(s.DstAddr, 1)
 	}
+	if o.SameOnly {
+		s.W.Shards.Set(s.DstAddr, s.W.Shards.Self)
+	}
 	if o.Wild {
 		s.DstAddr = nil
 		args = s.wild("tnnab", args)
@@ -796,7 +810,9 @@ func scnMultiTransfer(o Opt) *Scn {
 	s := newScn("MultiESDTNFTTransfer", o)
 	g := s.prices()
 	f, _ := builtInFunctions.NewESDTNFTMultiTransferFunc(g.BuiltInCost.ESDTNFTMultiTransfer, s.W.Codec, s.W.Pause, s.W.Accounts, s.W.Shards, g.BaseOperationCost, verif.U32("activation"), s.W.Epochs)
-	_ = f.SetPayableHandler(s.W.Payable)
+	if !s.O.DefaultPayable {
+		_ = f.SetPayableHandler(s.W.Payable)
+	}
 	s.Fn = f
 	s.finishPricing()
 	s.Cost, s.Priced = s.Gas.BuiltInCost.ESDTNFTMultiTransfer, true
@@ -849,6 +865,9 @@ func scnMultiTransfer(o Opt) *Scn {
 	args = attachedCall("t", args)
 	if o.CrossOnly {
 		s.W.Shards.Set(s.DstAddr, 1)
+	}
+	if o.SameOnly {
+		s.W.Shards.Set(s.DstAddr, s.W.Shards.Self)
 	}
 	if o.Wild {
 		s.DstAddr = nil
